@@ -4,6 +4,10 @@ import json, os
 HERE = os.path.dirname(os.path.dirname(os.path.abspath(__file__)))
 
 CLAIMED = {
+ 'C12': ('producer/consumer table comparison: printf fragments of gdump.c (clang AST, with guards and argument types) vs tag-flow model of gdumpparser.py reads; argument-binding swap lint; guard-shape rules',
+         'Decides for every dump: each attribute gdumpparser reads with [] is written unconditionally by gdump.c and everything written is read (or reviewed); G_PARAM_* equal GLib ABI values, each property flag is an independent bit test reaching the like-named Property argument; signal flags and run phases agree by name with the GLib flag guarding them in gdump.c; integers are printed with the signedness of their C type; boxed and pointer types pair with records and unions alike; class and class struct are linked both ways; get-type functions of registered types are removed; the parent chain is kept whole and walked to the first resolvable parent; vfuncs only where the first parameter is the instance.',
+         'Not decided: any concrete merge, default-value text, type resolution of dumped names. Trusted: clang-14, stub GObject types (GEnumValue.value gint, GFlagsValue.value guint as in GLib), CPython ast.',
+         '§4 C12'),
  'C08': ('clang AST statement-order and table rules over the layout algorithm (align/record/advance/tail-pad), failure propagation, tag->ffi type tables',
          'Decides only what is in the source: the struct layout loop aligns to the member, records the offset, then advances, and pads the tail; unions take maxima and pad the tail; GI_ALIGN is the power-of-two round-up; a failing member yields -1/-1 and 0xFFFF offsets; every type tag maps to the ffi type of its width and signedness (exhaustive over the tables); fixed-size arrays in fields are embedded and sized count*element; callbacks are pointers.',
          'NOT decided (not applicable to static analysis): equality with the numbers gcc/libffi produce on this platform, enum width thresholds (indistinguishable on this ABI). Trusted: clang-14, stub GLib/ffi headers.',
